@@ -1,7 +1,7 @@
 #!/bin/bash
 # import_benign.sh Cxx : copies a sub-agent's behaviour-preserving refactorings from /tmp/benign-out/Cxx to
 # /verif/benign/Cxx and runs every property's rules on the combined patch; on an alarm, each step is run
-# against the alarming properties to find which refactoring triggers it. Appends to benign/RESULTS.tsv.
+# against the alarming properties to find which refactoring triggers it. Appends to benign/RAW.tsv.
 set -u
 HERE="$(cd "$(dirname "${BASH_SOURCE[0]}")" && pwd)"
 ID="$1"; SRC="/tmp/benign-out/$ID"; DST="$HERE/benign/$ID"
@@ -9,14 +9,14 @@ ID="$1"; SRC="/tmp/benign-out/$ID"; DST="$HERE/benign/$ID"
 mkdir -p "$DST"; cp "$SRC"/*.diff "$SRC/meta.json" "$DST/" 2>/dev/null
 git -C /repo rev-parse --short HEAD > "$DST/base.txt"
 OUT=$("$HERE/benigntest.sh" "$DST/all.diff" 2>&1); echo "$OUT"
-touch "$HERE/benign/RESULTS.tsv"; grep -v "^$ID	" "$HERE/benign/RESULTS.tsv" > "$HERE/benign/RESULTS.tsv.new"; mv "$HERE/benign/RESULTS.tsv.new" "$HERE/benign/RESULTS.tsv"
-if echo "$OUT" | grep -q "^QUIET"; then printf '%s\tall\tQUIET\t-\n' "$ID" >> "$HERE/benign/RESULTS.tsv"; exit 0; fi
-if echo "$OUT" | grep -q "^SKIPPED"; then printf '%s\tall\tSKIPPED\t-\n' "$ID" >> "$HERE/benign/RESULTS.tsv"; exit 2; fi
+touch "$HERE/benign/RAW.tsv"; grep -v "^$ID	" "$HERE/benign/RAW.tsv" > "$HERE/benign/RAW.tsv.new"; mv "$HERE/benign/RAW.tsv.new" "$HERE/benign/RAW.tsv"
+if echo "$OUT" | grep -q "^QUIET"; then printf '%s\tall\tQUIET\t-\n' "$ID" >> "$HERE/benign/RAW.tsv"; exit 0; fi
+if echo "$OUT" | grep -q "^SKIPPED"; then printf '%s\tall\tSKIPPED\t-\n' "$ID" >> "$HERE/benign/RAW.tsv"; exit 2; fi
 PROPS=$(echo "$OUT" | grep -E "^(ALARM|BROKEN) C[0-9]+" | awk '{print $2}' | sort -u | tr '\n' ' ')
-printf '%s\tall\tALARM\t%s\n' "$ID" "$PROPS" >> "$HERE/benign/RESULTS.tsv"
+printf '%s\tall\tALARM\t%s\n' "$ID" "$PROPS" >> "$HERE/benign/RAW.tsv"
 for s in "$DST"/step-*.diff; do
   o=$("$HERE/benigntest.sh" "$s" $PROPS 2>&1); echo "$o" | head -12
   if echo "$o" | grep -q "^QUIET"; then st=QUIET; else st=ALARM; fi
-  printf '%s\t%s\t%s\t%s\n' "$ID" "$(basename "$s")" "$st" "$(echo "$o" | grep -E '^(ALARM|BROKEN) C' | awk '{print $2}' | sort -u | tr '\n' ' ')" >> "$HERE/benign/RESULTS.tsv"
+  printf '%s\t%s\t%s\t%s\n' "$ID" "$(basename "$s")" "$st" "$(echo "$o" | grep -E '^(ALARM|BROKEN) C' | awk '{print $2}' | sort -u | tr '\n' ' ')" >> "$HERE/benign/RAW.tsv"
 done
 exit 1
